@@ -400,3 +400,35 @@ func TestRegexpReal() {
 	re2 := regexp.MustCompile("a.c|x+")
 	verifrt.Assert(re2.Match([]byte("zzabczz")) && re2.MatchString("xx") && !re2.MatchString("ac"), "alternation")
 }
+
+// TestAppendCaps: the capacity an append leaves behind is the Go runtime's
+// (growslice + allocator size classes); code that looks at cap() depends on it.
+func TestAppendCaps() {
+	var b []byte
+	b = append(b, "hello"...)
+	verifrt.Assert(cap(b) == 8, "[]byte nil + 5")
+	b = append(b, "xyz!"...)
+	verifrt.Assert(cap(b) == 16, "[]byte 8 -> 16")
+	var is []int
+	is = append(is, 1, 2, 3)
+	verifrt.Assert(cap(is) == 3, "[]int nil + 3")
+	is = append(is, 4)
+	verifrt.Assert(cap(is) == 6, "[]int 3 -> 6")
+	var ss []string
+	ss = append(ss, "a")
+	verifrt.Assert(cap(ss) == 1, "[]string nil + 1")
+	ss = append(ss, "b")
+	verifrt.Assert(cap(ss) == 2, "[]string 1 -> 2")
+	ss = append(ss, "c")
+	verifrt.Assert(cap(ss) == 4, "[]string 2 -> 4")
+	big := make([]byte, 300)
+	big = append(big, 1)
+	verifrt.Assert(cap(big) == 576, "[]byte 300 + 1")
+	big5 := make([]byte, 5)
+	big5 = append(big5, make([]byte, 7)...)
+	verifrt.Assert(cap(big5) == 16, "[]byte 5 + 7 (more than double)")
+	huge := make([]byte, 40000)
+	huge = append(huge, 1)
+	verifrt.Assert(cap(huge) == 57344, "[]byte 40000 + 1")
+	verifrt.Reach("caps")
+}
